@@ -14,8 +14,8 @@
 //           blanks = exactly start-first_non_ws characters, all whitespace: the k-th one is the k-th
 //                    character of the shown (left-trimmed) line if that is a blank (so tabs keep their
 //                    width), else ' '   ==> the marker starts under character `start` of the line.
-// `reference()` renders exactly that by hand (no std::fmt, byte pushes only) and the harness asserts
-// `format_region(..) == reference(..)`.
+// `reference()` renders exactly that by hand (no std::fmt, character pushes only) and the harness asserts
+// `format_region(..) == reference(..)` byte for byte.
 //
 // std functions replaced (same observable behaviour; they only build panic messages, or only differ
 // in the initial capacity of the result String):
@@ -44,19 +44,7 @@ mod verif_kani_excerpt {
         }
     }
 
-    /// model of `str::repeat` for harnesses with a SYMBOLIC repeat count only (CBMC 6.11 dies with SIGSEGV
-    /// in the real doubling loop of `<[u8]>::repeat` when the count is symbolic): n-fold `push_str`
-    fn repeat_model(s: &str, n: usize) -> String {
-        let mut out = String::with_capacity(32);
-        let mut k = 0;
-        while k < n { out.push_str(s); k += 1; }
-        out
-    }
-
     macro_rules! h {
-        ($(#[$doc:meta])* $name:ident, $unwind:literal, model_repeat, $body:block) => {
-            h!($(#[$doc])* #[kani::stub(str::repeat, repeat_model)] $name, $unwind, $body);
-        };
         ($(#[$doc:meta])* $name:ident, $unwind:literal, $body:block) => {
             $(#[$doc])*
             #[kani::proof]
@@ -133,86 +121,43 @@ mod verif_kani_excerpt {
         true
     }
 
-    /// one contract instance on a concrete/symbolic char sequence
-    fn check(chars: &[char], line: usize, start: usize, end: usize) { check_with(chars, line, start, end, false) }
-
-    /// `all_ascii` must only be set when every element of `chars` is ASCII
-    fn check_with(chars: &[char], line: usize, start: usize, end: usize, all_ascii: bool) {
+    /// one instance of the contract
+    fn check(chars: &[char], line: usize, start: usize, end: usize) {
+        // the instance must lie inside the contract's precondition
+        let mut k = 0;
+        while k < chars.len() { assert!(chars[k] != '\n'); k += 1; }
+        assert!(first_non_ws(chars) <= start && start <= end && end < chars.len());
         let mut text = String::with_capacity(32);
         let mut k = 0;
-        while k < chars.len() {
-            let c = chars[k];
-            if all_ascii {
-                // same as `text.push(c)`, but the length of `text` stays a constant for CBMC
-                assert!(c.is_ascii());
-                unsafe { text.as_mut_vec().push(c as u8); }
-            } else {
-                text.push(c);
-            }
-            k += 1;
-        }
+        while k < chars.len() { text.push(chars[k]); k += 1; }
         let got = PrettyPrint::format_region(&text, line, start, end);
         let want = reference(chars, line, start, end);
         assert!(same(got.as_bytes(), want.as_bytes()),
                 "the excerpt is not the referred line with the marker under the reported columns");
+        kani::cover!(got.len() > 12, "an excerpt was rendered and compared");
     }
 
-    /// alphabet: 0 ' ', 1 '\t', 2 'a', 3 U+3000 IDEOGRAPHIC SPACE (3 bytes, White_Space), 4 U+00A0 NO-BREAK SPACE (2 bytes)
-    fn pick(k: u8) -> char {
-        match k { 0 => ' ', 1 => '\t', 2 => 'a', 3 => '\u{3000}', _ => '\u{a0}' }
+    // Every harness is ONE concrete instance of the contract ("bounded: exactly this input").  Measured
+    // limits of CBMC 6.11 on this function (with the stubs above, 300 s budget each):
+    //   * symbolic text of 2 or 3 characters over {' ', '\t', 'a'} with symbolic columns: no verdict
+    //     (the `chars().enumerate()` / `trim()` / `collect()` loops run over a string whose bytes are symbolic);
+    //   * concrete text with symbolic columns, or a symbolic line number: CBMC dies with SIGSEGV while
+    //     unwinding the doubling loop of `<[u8]>::repeat` with a symbolic count; with `str::repeat`
+    //     replaced by an n-fold `push_str` model: no verdict.
+    // One concrete instance needs 50-90 s.
+    macro_rules! inst { ($($name:ident = ($text:expr, $line:expr, $start:expr, $end:expr);)*) => {
+        $( h!($name, 16, { check(&$text, $line, $start, $end); }); )*
+    } }
+
+    inst! {
+        // ASCII only (these hold on the current tree)
+        c_plain = ([' ', ' ', 'a', 'd', 'd', ' ', 'x'], 6, 2, 4);            // indented, marker on the first token
+        c_tab_two_digit_line = (['\t', 'a', '\t', 'b', ' '], 9, 3, 3);       // line 10: wider gutter; tab kept before the marker; trailing blank
+        c_first_column = (['r', 'e', 't'], 0, 0, 0);                         // no indentation, one caret in column 0
+        c_whole_line = ([' ', 'l', 'i', ' ', 'a', '0'], 41, 1, 5);           // marker to the last character
+        // multi-byte blanks before the marker (current tree: FAIL -- candidate defect D15)
+        c_nbsp_between = (['a', '\u{a0}', 'b'], 0, 2, 2);                    // panics: replace_range(2..) inside U+00A0
+        c_ideographic_indent = (['\u{3000}', 'a', 'b'], 0, 2, 2);            // panics: text.get(1..) is None, base empty, replace_range(1..)
+        c_ideographic_shift = (['a', '\u{3000}', ' ', ' ', 'b'], 0, 4, 4);   // no panic, marker two columns too far left
     }
-
-    /// symbolic text of exactly N chars over the first `alpha` letters of the alphabet, symbolic columns
-    /// within the precondition, concrete line number (a symbolic one makes `" ".repeat(n_spc)` symbolic and
-    /// CBMC 6.11 crashes with SIGSEGV while unwinding `<[u8]>::repeat`)
-    fn symbolic<const N: usize>(alpha: u8, line: usize) {
-        let mut chars = [' '; N];
-        let mut k = 0;
-        while k < N {
-            let c: u8 = kani::any();
-            kani::assume(c < alpha);
-            chars[k] = pick(c);
-            k += 1;
-        }
-        let start: usize = kani::any();
-        let end: usize = kani::any();
-        kani::assume(start <= end && end < N);
-        kani::assume(first_non_ws(&chars) <= start);
-        kani::cover!(first_non_ws(&chars) > 0 && start > first_non_ws(&chars), "indented line, marker not at the first token");
-        kani::cover!(chars[N - 1].is_whitespace(), "trailing blank");
-        kani::cover!(end > start, "marker wider than one column");
-        kani::cover!(alpha > 3 && chars[0] == '\u{3000}', "multi-byte blank in the indentation");
-        kani::cover!(alpha > 3 && start > 1 && chars[0] == 'a' && chars[1] == '\u{3000}', "multi-byte blank between the tokens before the marker");
-        check_with(&chars, line, start, end, alpha <= 3);
-    }
-
-    // ---------------------------------------------------------------- concrete instances
-    h!(c_plain, 16, { check(&[' ', ' ', 'a', 'd', 'd', ' ', 'x'], 6, 2, 4); });
-    h!(c_tab, 16, { check(&['\t', 'a', '\t', 'b', ' '], 9, 3, 3); });
-    // the smallest panicking inputs found natively (current tree: FAIL; with the byte/char fix: pass)
-    h!(c_nbsp_between, 16, { check(&['a', '\u{a0}', 'b'], 0, 2, 2); });
-    h!(c_ideographic_indent, 16, { check(&['\u{3000}', 'a', 'b'], 0, 2, 2); });
-    h!(c_ideographic_shift, 16, { check(&['a', '\u{3000}', ' ', ' ', 'b'], 0, 4, 4); });
-
-    // ---------------------------------------------------------------- concrete text, symbolic columns
-    h!(
-    /// text "  ab c" (concrete), every (start, end) with 2 <= start <= end < 6
-    k_cols, 16, model_repeat, {
-        let start: usize = kani::any();
-        let end: usize = kani::any();
-        kani::assume(2 <= start && start <= end && end < 6);
-        kani::cover!(start == 2 && end == 5, "whole line");
-        kani::cover!(start == 5 && end == 5, "last column");
-        check_with(&[' ', ' ', 'a', 'b', ' ', 'c'], 3, start, end, true);
-    });
-
-    // ---------------------------------------------------------------- symbolic, ASCII blanks only
-    h!(s2_ascii, 14, { symbolic::<2>(3, 6); });
-    h!(s3_ascii, 14, { symbolic::<3>(3, 6); });
-    h!(s4_ascii, 14, { symbolic::<4>(3, 6); });
-
-    // ---------------------------------------------------------------- symbolic, with multi-byte blanks
-    h!(s2_multibyte, 16, { symbolic::<2>(5, 6); });
-    h!(s3_multibyte, 16, { symbolic::<3>(5, 6); });
-    h!(s4_multibyte, 16, { symbolic::<4>(5, 6); });
 }
